@@ -2,7 +2,7 @@
    Print Assumptions; the statements are pinned here so they cannot be quietly weakened.
    Model: C11/Model.v (extend / contract of quill/src/action/extend_inner_class_names.rs),
    specification vocabulary (Ext, Broken, ext_rel, contract_rel): C11/Theory.v, C11/Theory2.v. *)
-From FB Require Import C11.Model C11.Theory C11.Theory2.
+From FB Require Import C11.Model C11.Theory C11.Theory2 C11.Theory3.
 From FB Require Props.C18.
 
 (* Extension: the result has the same namespaces and comment; class by class (same order) the
@@ -133,6 +133,107 @@ Print Assumptions C11_split_join.
 Theorem C11_join_split : forall s p i, split_inner s = Some (p, i) -> join_inner p i = s /\ FB.C18.Theory.inner_ok p i.
 Proof. exact FB.Props.C18.C18_join_split. Qed.
 Print Assumptions C11_join_split.
+
+(* ---------------------------------------------------------------------------------------------
+   Round 4 *)
+
+(* The recursive parent lookup of `map` terminates on every class set, because it walks the
+   SOURCE NAME, not a user-supplied graph: every outer class name (at any distance) is a proper
+   prefix of the nested name, cut in front of a `$`; so it is strictly shorter, the relation has
+   no cycle, and fuel = length of the name suffices (C11_map_name_fuel). *)
+Theorem C11_ancestor_proper_prefix : forall a s,
+  Ancestor a s -> (exists t, s = a ++ cDOLLAR :: t) /\ (length a < length s)%nat /\ a <> s.
+Proof. exact ancestor_proper_prefix. Qed.
+Print Assumptions C11_ancestor_proper_prefix.
+
+Theorem C11_ancestor_definition : forall a s,
+  Ancestor a s <->
+  exists p i, split_inner s = Some (p, i) /\ (a = p \/ Ancestor a p).
+Proof. exact ancestor_definition. Qed.
+Print Assumptions C11_ancestor_definition.
+
+Theorem C11_ancestor_acyclic : forall s, ~ Ancestor s s.
+Proof. exact ancestor_acyclic. Qed.
+Print Assumptions C11_ancestor_acyclic.
+
+(* Frame: the recursion looks at the class set only through the (source name -> name in ns)
+   relation of the ANCESTORS of the source name ... *)
+Theorem C11_map_name_frame : forall fuel cs1 cs2 ns src b,
+  (forall a, Ancestor a src -> get_class_name cs1 a ns = get_class_name cs2 a ns) ->
+  map_name fuel cs1 ns src b = map_name fuel cs2 ns src b.
+Proof. exact map_name_frame. Qed.
+Print Assumptions C11_map_name_frame.
+
+(* ... so the row of a class comes out the same when a class that is not one of its outer classes
+   is added (o = None), removed (o' = None) or replaced (e.g. renamed in ns), anywhere in the set *)
+Theorem C11_extend_frame : forall pre o o' post ns l,
+  (forall src a, first_name l = Some src -> Ancestor a src -> key_differs o a /\ key_differs o' a) ->
+  extend_names (pre ++ opt_cons o post) ns l = extend_names (pre ++ opt_cons o' post) ns l.
+Proof. exact extend_frame. Qed.
+Print Assumptions C11_extend_frame.
+
+Theorem C11_frame_definitions :
+  (forall c l, opt_cons (Some c) l = c :: l) /\ (forall l, opt_cons None l = l) /\
+  (forall c a, key_differs (Some c) a <-> class_key c <> Some a) /\ (forall a, key_differs None a <-> True).
+Proof. exact frame_definitions. Qed.
+Print Assumptions C11_frame_definitions.
+
+(* Contraction looks only at the name in the chosen namespace (never at the source name): what
+   it keeps is never splittable again, and contracting twice is contracting once *)
+Theorem C11_innermost_spec : forall b,
+  ((exists p, split_inner b = Some (p, innermost b)) \/ (split_inner b = None /\ innermost b = b))
+  /\ split_inner (innermost b) = None.
+Proof. exact innermost_full_spec. Qed.
+Print Assumptions C11_innermost_spec.
+
+Theorem C11_contract_idem : forall M name M', contract M name = Ok M' -> contract M' name = Ok M'.
+Proof. exact contract_idem. Qed.
+Print Assumptions C11_contract_idem.
+
+(* On a set with simple names contraction is the identity; hence contracting the extended set
+   gives what contracting the original gives.  Without simple_names this fails (C11_examples3). *)
+Theorem C11_contract_after_extend : forall M name ns M',
+  wf M = true -> ns_index (ms_ns M) name = Some ns -> ns <> O -> simple_names M ns = true ->
+  extend M name = Ok M' -> contract M' name = contract M name /\ contract M name = Ok M.
+Proof. exact contract_after_extend. Qed.
+Print Assumptions C11_contract_after_extend.
+
+(* Extending an already extended set never fails, and is NOT the identity: the names of the
+   outer classes m0, .., mk have become m0, m0$m1, .., m0$..$mk, and the class's name m0$..$mk$b
+   gets all of them prepended once more. *)
+Theorem C11_extend_twice : forall M ns M',
+  extend_idx M ns = Ok M' ->
+  (exists M'', extend_idx M' ns = Ok M'') /\
+  forall src ms b r2,
+    Chain (ms_classes M) ns src ms ->
+    (Ext (ms_classes M') ns src (join_dollar (ms ++ [b])) r2 <->
+     r2 = join_dollar (map join_dollar (nonempty_prefixes ms) ++ [join_dollar (ms ++ [b])])).
+Proof. exact extend_twice. Qed.
+Print Assumptions C11_extend_twice.
+
+(* Both operations produce valid object class names from valid ones (what the unsafe
+   from_inner_unchecked blocks of from_inner_class / split_inner_class_parent_and_name rely on),
+   for whole mapping sets; the test is the implementation's own is_valid_obj_class_name
+   (= the JVMS binary-name grammar, C18_obj_class_name) on every name of the chosen namespace *)
+Theorem C11_valid_names_preserved : forall M name M',
+  (extend M name = Ok M' \/ contract M name = Ok M') ->
+  forall ns, ns_index (ms_ns M) name = Some ns ->
+  names_validb (ms_classes M) ns = true -> names_validb (ms_classes M') ns = true.
+Proof. exact valid_preserved. Qed.
+Print Assumptions C11_valid_names_preserved.
+
+Theorem C11_names_valid_definition : forall cs ns,
+  names_validb cs ns = true <->
+  forall c b, In c cs -> nth_name (c_names c) ns = Some b -> FB.C18.Theory.ClassNameG b.
+Proof. exact names_valid_definition. Qed.
+Print Assumptions C11_names_valid_definition.
+
+(* two branches with pairwise equal target names are extended per branch (along the source names);
+   nested target names under flat source names are contracted; a second extension differs from the
+   first and still contracts to the original; contract(extend M) <> contract M without simple names *)
+Theorem C11_examples3 : examples3.
+Proof. exact examples3_hold. Qed.
+Print Assumptions C11_examples3.
 
 (* non-vacuity (the repository's fixture plus a depth-4 chain satisfies every hypothesis and is
    really rewritten), the failure cases, and necessity of simple_names for the inverse law *)
